@@ -23,6 +23,20 @@ SESSIONS = [
     dict(name="two symbols, 3m and 5m, 16 minutes", symbols=("AAA-USDT", "BBB-USDT"), minutes=16, timeframe=("3m", "5m")),
     dict(name="one symbol 15m + data symbol 5m, 31 minutes", symbols=("AAA-USDT",), data_symbols=("BBB-USDT",), minutes=31, timeframe=("15m", "5m")),
 ]
+# thorough tier: three symbols, more timeframes and longer sessions
+THOROUGH_EXTRA = [
+    dict(name="three symbols, 5m, 23 minutes", symbols=("AAA-USDT", "BBB-USDT", "CCC-USDT"), minutes=23, timeframe="5m"),
+    dict(name="two symbols + data symbol, 15m / 15m / 5m, 47 minutes", symbols=("AAA-USDT", "BBB-USDT"), data_symbols=("CCC-USDT",), minutes=47, timeframe=("15m", "15m", "5m")),
+    dict(name="one symbol, 45m, 100 minutes", symbols=("AAA-USDT",), minutes=100, timeframe="45m"),
+    dict(name="two symbols, 30m and 45m, 95 minutes", symbols=("AAA-USDT", "BBB-USDT"), minutes=95, timeframe=("30m", "45m")),
+    dict(name="one symbol 1h + data symbol 15m, 125 minutes", symbols=("AAA-USDT",), data_symbols=("BBB-USDT",), minutes=125, timeframe=("1h", "15m")),
+] + [dict(name=f"one symbol, {tf}, {n} minutes", symbols=("AAA-USDT",), minutes=n, timeframe=tf) for tf in ("15m", "30m") for n in (14, 15, 16, 29, 30, 31, 44, 46, 61)]
+
+
+def for_tier(tier: str):
+    return SESSIONS + THOROUGH_EXTRA if tier == "thorough" else SESSIONS
+
+
 SIMS = ("_step_simulator", "_skip_simulator")
 _cache: Dict[str, Dict] = {}
 
@@ -232,11 +246,11 @@ def check_protocol(repo, rep, rid, what="full", cfgs=None, sims=SIMS):
     rep.floor(rid, len(sims) * len(SESSIONS if cfgs is None else cfgs))
 
 
-def check_same_protocol(repo, rep, rid):
+def check_same_protocol(repo, rep, rid, cfgs=None):
     """C12: block by block the fast simulator's protocol equals the normal simulator's at the same minute"""
-    ss = sessions(repo)
-    skip = raised(repo, rep, rid)
-    for cfg in SESSIONS:
+    ss = sessions(repo, cfgs)
+    skip = raised(repo, rep, rid, cfgs)
+    for cfg in (SESSIONS if cfgs is None else cfgs):
         name = cfg["name"]
         if any((name, sim) in skip for sim in SIMS):
             rep.instance(rid, name + "|raises")
@@ -255,7 +269,7 @@ def check_same_protocol(repo, rep, rid):
         if inner:
             rep.violation(rid, "exec-inside-chunk", f"({name}) the normal simulator executes strategies after minutes {inner}, which lie inside a chunk of the fast simulator")
         rep.instance(rid, name, {"session": name, "chunk_ends": sorted(fb)})
-    rep.floor(rid, len(SESSIONS))
+    rep.floor(rid, len(SESSIONS if cfgs is None else cfgs))
 
 
 def check_generation(repo, rep, rid, cfgs=None, sims=SIMS):
